@@ -162,18 +162,22 @@ func init() {
 	// ---- atomics
 	ext["sync/atomic.AddUint64"] = func(fr *frame, args []value) value {
 		p := deref(fr, args[0], "atomic.AddUint64")
+		RD.syncOn(p)
 		*p = binop(token.ADD, types.Typ[types.Uint64], *p, args[1])
 		return *p
 	}
 	ext["sync/atomic.AddUint32"] = func(fr *frame, args []value) value {
 		p := deref(fr, args[0], "atomic.AddUint32")
+		RD.syncOn(p)
 		*p = binop(token.ADD, types.Typ[types.Uint32], *p, args[1])
 		return *p
 	}
 	ext["sync/atomic.LoadUint64"] = func(fr *frame, args []value) value {
+		RD.syncOn(deref(fr, args[0], "atomic.LoadUint64"))
 		return *deref(fr, args[0], "atomic.LoadUint64")
 	}
 	ext["sync/atomic.StoreUint64"] = func(fr *frame, args []value) value {
+		RD.syncOn(deref(fr, args[0], "atomic.StoreUint64"))
 		*deref(fr, args[0], "atomic.StoreUint64") = args[1]
 		return nil
 	}
